@@ -1,5 +1,6 @@
 import Ntrip.Generated.Funcs
 import Ntrip.Model.Range
+import Ntrip.Model.Bits
 /-!
 The functions that the translator (`extract/translate.go`) regenerates from the source on every
 run (`Generated/Funcs.lean`) are the hand-written model's functions: for these, the model is not
@@ -46,5 +47,29 @@ theorem translated_GetScaledPhaseRangeRate (rate delta : Int)
   unfold Gen.fn_utils_GetScaledPhaseRangeRate
   simp only [Go64.mulI, Go64.addI]
   rw [wrapI_of_range (rate * 10000) (by omega), wrapI_of_range _ (by omega)]
+
+theorem idx_map (buf : Bytes) (k : Nat) : Go64.idx (buf.map (·.toNat)) k = match buf[k]? with | some b => b.toNat | none => 0 := by
+  unfold Go64.idx
+  rw [List.getElem?_map]
+  cases buf[k]? <;> rfl
+
+theorem subU_small (r : Nat) (h : r ≤ 7) : Go64.subU 7 r = 7 - r := by
+  unfold Go64.subU Go64.ofI
+  omega
+
+/-- The translated loop body of `GetBitsAsUint64` is the model's step. -/
+theorem translated_bits_body (buf : Bytes) (pos len acc k : Nat) :
+    Gen.fn_utils_GetBitsAsUint64_body (buf.map (·.toNat)) pos len (pos + k) acc = stepU buf pos acc k := by
+  unfold Gen.fn_utils_GetBitsAsUint64_body stepU bitAt
+  simp only [Go64.divU, Go64.modU, Go64.shrU, Go64.andU, Go64.orU, Go64.shlU]
+  rw [idx_map, subU_small _ (by omega)]
+  rw [Nat.or_mod_two_pow]
+  cases buf[(pos + k) / 8]? with
+  | none => simp
+  | some b =>
+    simp only [Nat.and_one_is_mod]
+    have : (b.toNat >>> (7 - (pos + k) % 8)) % 2 % 2 ^ 64 = (b.toNat >>> (7 - (pos + k) % 8)) % 2 := by
+      apply Nat.mod_eq_of_lt; omega
+    rw [this]
 
 end Ntrip
